@@ -24,6 +24,7 @@ class Scenario:
     self.ghost = {}            # ghost state variable -> initial value
     self.elem_typ = {}         # model name -> element typ of a deque / key typ of a dict
     self.sym_inputs = {}       # state variable -> (lo, hi): symbolic initial value
+    self.global_locks = []     # (module name, global name, model name) of module-level locks met while translating
     self.notes = []
 
   def add(self, model):
@@ -138,7 +139,7 @@ class System:
     self.stable = {p.tid: [n.id for n in p.nodes if (isinstance(n, ir.Op) and self.is_stable(p, n)) or n.id == p.entry] for p in self.programs}
     self.ends = {p.tid: [n.id for n in p.nodes if isinstance(n, ir.End)] for p in self.programs}
 
-  READS = {"get_default", "is_set", "qsize", "full", "empty", "__len__", "getitem", "load", "contains", "values_contains", "snapshot", "snapshot_keys",
+  READS = {"get_default", "is_set", "qsize", "full", "empty", "__len__", "getitem", "load", "contains", "values_contains", "snapshot", "snapshot_items", "snapshot_keys",
            "snapshot_values", "is_alive", "iter", "next", "sleep"}
 
   def find_invisible(self):
@@ -172,7 +173,13 @@ class System:
           self.invisible.add((p.tid, n.id))
     self.break_local_cycles()
 
+  ignored_edges = None
+
   def break_local_cycles(self):
+    self.ignored_edges = {}
+    self._break_local_cycles()
+
+  def _break_local_cycles(self):
     """every cycle of a thread's control flow must contain a stable node (otherwise one step would be unbounded):
     an invisible operation on such a cycle is made visible again"""
     for p in self.programs:
@@ -182,7 +189,10 @@ class System:
           break
         ops = [nid for nid in cyc if isinstance(p.nodes[nid], ir.Op)]
         if not ops:
-          raise TranslationError("thread %s has a loop without any shared operation (nodes %s)" % (p.name, cyc[:6]))
+          # a purely local loop (over a snapshot / a range of local values): bounded by the data it walks; the step-depth limit of
+          # run_local guards against one that is not
+          self.ignored_edges.setdefault(p.tid, set()).add((cyc[-1], cyc[0]))
+          continue
         # visibility is a property of (thread, object, operation): the replay proxies cannot tell two call sites apart
         chosen = p.nodes[ops[0]]
         key = (self.target_names(chosen), chosen.name)
@@ -204,7 +214,8 @@ class System:
         sx = [n.next] + list(n.exc.values())
       else:
         sx = [n.next]
-      succ[n.id] = [x for x in sx if x is not None and not self.is_stable(p, p.nodes[x])]
+      ign = self.ignored_edges.get(p.tid, ())
+      succ[n.id] = [x for x in sx if x is not None and not self.is_stable(p, p.nodes[x]) and (n.id, x) not in ign]
     color = {}
     for root in succ:
       if root in color:
